@@ -4,14 +4,14 @@ import LexVerif.Model.Ops.WriteFloat
 # Model.Ops.WriteRadix — model column of `wf` / `Lwf` for generic-radix formats (radix.rs)
 
 Everything around the back-end (buffer-size assert, format validity, sign, specials, back-end dispatch) is
-`Model.WriteFloat.writeFloat`; when it answers `.other .radix signLen` (finite value, generic radix, `radix` feature)
+`Model.WriteFloat.writeFloatB` with the `buffer_size_const` of the code under test (`Ops.WriteFloat.writeFloatCur`); when it answers `.other .radix signLen` (finite value, generic radix, `radix` feature)
 the digits and the layout come from `Model.WriteRadix.writeFloat` run on `&mut bytes[signLen..]`.
 Answers `ok <hex> clean <bound>` (`ok <hex>` for the facade) | `panic`; `none` for every other op.
 -/
 namespace LexVerif.Model.Ops.WriteRadix
 open LexVerif.Spec LexVerif.Model LexVerif.Model.WriteFloat
 open LexVerif.Model.WriteInt (Res)
-open LexVerif.Model.Ops.WriteFloat (wOptsOf fmtOf signOf bufOf)
+open LexVerif.Model.Ops.WriteFloat (wOptsOf fmtOf signOf bufOf boundOf writeFloatCur)
 
 def runWF (feats : Features) (ty : String) (fmt : Format) (bitsHex : String) (o : WOpts) (buflen : String)
     (facade : Bool) : Option String :=
@@ -20,12 +20,12 @@ def runWF (feats : Features) (ty : String) (fmt : Format) (bitsHex : String) (o 
   | some f =>
     if (wOptsError o).isSome then none else
     let bits := (ofHex bitsHex).getD 0
-    let bound := bufferSizeConst feats f fmt o
+    let bound := boundOf feats f fmt o
     let buf := bufOf feats f fmt o (if facade then "-" else buflen)
-    match writeFloat feats f fmt o false bits ([0], 0) buf with
+    match writeFloatCur feats f fmt o false bits ([0], 0) buf with
     | .other .radix signLen =>
       let mag := bits % f.signBit
-      match WriteRadix.writeFloat feats f fmt o mag (buf.length - signLen) with
+      match WriteRadix.writeFloat WriteRadix.repoHasCarryFix feats f fmt o mag (buf.length - signLen) with
       | .ok text =>
         let out := signOf feats f fmt bits ++ text
         if out.length > buf.length then some "panic"
